@@ -171,6 +171,21 @@ def r073_lagrangian(ctx):
     for f in fits:
         _check_relabel(ctx, A, "R07.3", r, f, sw, A.entry(r, "self.constraints._y_as_series"), is_cls,
                        A.entry(r, "self.constraints.X"), A.entry(r, "self.sample_weight_name"))
+        est, yred = f.data["fterm"].args[0], arg(f, 1)
+        b = {"yr": yred, "np": glob("numpy"), "Dummy": glob("sklearn.dummy.DummyClassifier"), "deepcopy": glob("copy.deepcopy"),
+             "clone": glob("sklearn.base.clone")}
+        b["u"] = A.spec("np.unique(yr)", b)
+        cond = A.spec("len(u) == 1", b)
+        dummy = A.spec('Dummy(strategy="constant", constant=u[0])', b)
+        specs = [mk("ite", cond, dummy, A.entry(r, c, b)) for c in (
+            "clone(estimator=self.estimator, safe=False)", "clone(self.estimator, safe=False)", "clone(self.estimator)",
+            "clone(estimator=self.estimator)", "deepcopy(self.estimator)")]
+        ok = A.any_eq(est, specs)
+        ctx.ob("R07.3", r.func, f.node, ok, "the oracle fits a fresh copy of the configured estimator (a constant DummyClassifier "
+               "only when the reduction labels have a single value)" if ok else f"the oracle fits {A.show(est, 200)}",
+               construct="oracle learner")
+        ok = r.ret is est
+        ctx.ob("R07.3", r.func, f.node, ok, "the fitted learner is what _call_oracle returns", construct="oracle result")
 
 
 def r073_gridsearch(ctx):
